@@ -2,7 +2,8 @@
 (***************************************************************************)
 (* Scalar domain for derivative semantics: truncated Taylor series          *)
 (*      z = z0 + z1 s + z2 t + z3 st,      s^2 = t^2 = 0                     *)
-(* over the Gaussian rationals of CQbase, written <<z0, z1, z2, z3>>.       *)
+(* over the coefficient field of CLbase (Gaussian rationals extended by    *)
+(* the transcendental atom L = ln 2), written <<z0, z1, z2, z3>>.           *)
 (* Seeding a terminal f as f + s df + t d'f + st dd'f and evaluating an     *)
 (* expression gives, by Taylor's theorem, its value, its directional        *)
 (* derivatives along d and d' and the mixed second derivative, exactly.     *)
@@ -12,7 +13,7 @@
 (* The operator names are those of the plain variant spec/CQ.tla.           *)
 (***************************************************************************)
 EXTENDS Integers, Sequences
-B == INSTANCE CQbase
+B == INSTANCE CLbase
 
 LIM == B!LIM
 CU == <<B!CU, B!CU, B!CU, B!CU>>
@@ -50,7 +51,7 @@ Flat(z) == z[2] = B!C0 /\ z[3] = B!C0 /\ z[4] = B!C0      \* no dependence on th
 \* |z|: for real z0 # 0 it is sign(z0) z; at 0 (and for complex values) not differentiable
 CAbs(z) == IF ~B!CDef(z[1]) THEN CU
            ELSE IF Flat(z) THEN CLit(B!CAbs(z[1]))
-           ELSE IF B!CIsReal(z[1]) /\ ~B!CIsZero(z[1]) THEN (IF z[1][1][1] > 0 THEN z ELSE CNeg(z))
+           ELSE IF B!IsConst(z[1]) /\ B!CIsReal(z[1]) /\ ~B!CIsZero(z[1]) THEN (IF B!RealPos(z[1]) THEN z ELSE CNeg(z))
            ELSE <<B!CAbs(z[1]), B!CU, B!CU, B!CU>>
 CSqrt(z) == LET r == B!CSqrt(z[1])
                 h == B!CDiv(B!C1, B!CMul(B!CI(2), r))                       \* 1 / (2 sqrt z0)
@@ -58,18 +59,28 @@ CSqrt(z) == LET r == B!CSqrt(z[1])
             IN IF Flat(z) THEN CLit(r) ELSE Compose(z, r, h, q)
 RECURSIVE CPowNat(_, _)
 CPowNat(z, k) == IF k = 0 THEN C1 ELSE CMul(z, CPowNat(z, k - 1))
-\* z ** w for a constant integer w or w = 1/2; an exponent that depends on the perturbation or is
-\* not of that form is outside the rational fragment
-CPow(z, w) ==
-  IF ~B!CDef(z[1]) \/ ~B!CDef(w[1]) \/ ~B!CIsReal(w[1]) \/ ~Flat(w) THEN CU
-  ELSE IF w[1][1][2] = 1 THEN
-         (IF w[1][1][1] >= 0 THEN (IF w[1][1][1] > 6 THEN CU ELSE CPowNat(z, w[1][1][1]))
-          ELSE IF w[1][1][1] < -6 THEN CU ELSE CInv(CPowNat(z, -w[1][1][1])))
-  ELSE IF w[1][1] = <<1, 2>> THEN CSqrt(z)
-  ELSE CU
-\* elementary functions at their rational point: value and derivatives by the chain rule (Compose)
+\* elementary functions at their decidable points: value and derivatives by the chain rule (Compose).
+\* Besides the rational point of each function (MathAt):  ln 2^k = k L (k = 1, 2, -1),  exp(k L) = 2^k.
 CMath(f, z) == LET m == B!MathAt(f) IN
-  IF B!CDef(z[1]) /\ z[1] = B!CI(m[1]) THEN Compose(z, B!CI(m[2]), B!CI(m[3]), B!CI(m[4])) ELSE CU
+  IF ~B!CDef(z[1]) THEN CU
+  ELSE IF z[1] = B!CI(m[1]) THEN Compose(z, B!CI(m[2]), B!CI(m[3]), B!CI(m[4]))
+  ELSE IF f = "ln" /\ z[1] = B!CI(2) THEN Compose(z, B!LL, B!CQ2(1, 2), B!CQ2(0 - 1, 4))
+  ELSE IF f = "ln" /\ z[1] = B!CI(4) THEN Compose(z, B!KL(2), B!CQ2(1, 4), B!CQ2(0 - 1, 16))
+  ELSE IF f = "ln" /\ z[1] = B!CQ2(1, 2) THEN Compose(z, B!KL(0 - 1), B!CI(2), B!CI(0 - 4))
+  ELSE IF f = "exp" /\ B!IsKL(z[1]) /\ B!KOf(z[1]) \in (0 - 6)..6
+       THEN LET v == B!Lift(B!Pow2(B!KOf(z[1]))) IN Compose(z, v, v, v)
+  ELSE CU
+\* z ** w.  A constant exponent: integer (negative: reciprocal) or 1/2.  An exponent that depends on the
+\* perturbation: z ** w = exp(w ln z) wherever ln z and that exponential are decidable (z = 1; z a power of 2
+\* with an integer exponent value); no power rule appears here.
+CPow(z, w) ==
+  IF ~B!CDef(z[1]) \/ ~B!CDef(w[1]) \/ ~B!CIsReal(w[1]) THEN CU
+  ELSE IF ~Flat(w) THEN CMath("exp", CMul(w, CMath("ln", z)))
+  ELSE IF B!IsInt(w[1]) THEN
+         (IF B!IntOf(w[1]) >= 0 THEN (IF B!IntOf(w[1]) > 6 THEN CU ELSE CPowNat(z, B!IntOf(w[1])))
+          ELSE IF B!IntOf(w[1]) < -6 THEN CU ELSE CInv(CPowNat(z, -B!IntOf(w[1]))))
+  ELSE IF B!IsHalf(w[1]) THEN CSqrt(z)
+  ELSE CU
 CCmpDef(z, w) == B!CCmpDef(z[1], w[1])
 CLt(z, w) == B!CLt(z[1], w[1])
 CSame(z, w) == z[1] = w[1]
